@@ -159,6 +159,23 @@ def run_case(ctx, idx, rng, tier):
         ctx.violation("canonical", f"traps_dict keys {sorted(td0)[:5]}.. / coords inconsistent for {n} traps",
                       "layout-ids-not-0..n-1")
         return
+    # ---- what a layout hands out is a snapshot: writing into it (centring, scaling for a plot ...) must not move the traps
+    if idx % 2:
+        c0 = np.array(c0, dtype=float, copy=True)
+        td0 = {k: np.array(v, dtype=float, copy=True) for k, v in td0.items()}
+        h0 = L0.static_hash()
+        for Lx in layouts:
+            outs = [Lx.coords, Lx.sorted_coords, *Lx.traps_dict.values()]
+            for a in outs:
+                if isinstance(a, np.ndarray) and a.flags.writeable:
+                    a *= 1.7
+                    a += 3.3
+                    ctx.count("handed_out_arrays_scribbled")
+        for Lx in layouts:
+            if not same(Lx.coords, c0) or any(not same(Lx.traps_dict[i], td0[i]) for i in range(n)) or Lx.static_hash() != h0:
+                ctx.violation("canonical", "writing into arrays handed out by a layout (coords / sorted_coords / traps_dict "
+                              "values) changed the layout's own traps / hash", "layout-hands-out-internal-array")
+                return
     for pm, L in zip(perms[1:], layouts[1:]):
         ctx.count("permutations_checked")
         if not same(L.coords, c0) or any(not same(L.traps_dict[i], td0[i]) for i in range(n)):
